@@ -8,7 +8,9 @@ use crate::gen::Mix;
 use crate::refchess::{attackers_on, file_of, on_board, rank_of, sq, Kind, Mv, Pc, Pos, BISHOP_D, ROOK_D};
 use serde_json::json;
 
-pub const RULE: &str = "every legal non-e.p. capture (incl. capturing promotions) of generated legal positions (tactical mix: 3-8 attackers and defenders of one square with batteries, kings as last defenders, promoted extra queens). With v = see(g, m, Eval(0)): (a) v equals the verdict for the mirrored move in the mirrored position; (b) if no enemy piece attacks the target after the capture (ray-walk attack test in the occupancy after the move, pins ignored) then v is true; (c) if value(captured) >= value(capturing piece) then v is true (100/300/300/500/900); (d) an independent swap-list minimax (least valuable attacker, x-rays re-scanned after every capture, king captures only when no enemy attacker is left, mover needs >= 0) that branches over every choice among equally valued attackers: if all branches agree v must equal that verdict, otherwise the capture is counted as tie-ambiguous and only (b),(c) are asserted. Non-trivial = capture with >= 2 attackers on each side or an x-ray attacker; distinct by (position, move).";
+pub const RULE: &str = "every legal non-e.p. capture (incl. capturing promotions) of generated legal positions (tactical mix: 3-8 attackers and defenders of one square with batteries, kings as last defenders, promoted extra queens, and a long-exchange theme with up to eleven attackers a side: four knights, bishop batteries on both diagonals, doubled rooks and a queen on the file). With v = see(g, m, Eval(0)): (a) v equals the verdict for the mirrored move in the mirrored position; (b) if no enemy piece attacks the target after the capture (ray-walk attack test in the occupancy after the move, pins ignored) then v is true; (c) if value(captured) >= value(capturing piece) then v is true (100/300/300/500/900); (d) an independent swap-list minimax (least valuable attacker, x-rays re-scanned after every capture, king captures only when no enemy attacker is left, mover needs >= 0) that branches over every choice among equally valued attackers: if all branches agree v must equal that verdict, otherwise the capture is counted as tie-ambiguous and only (b),(c) are asserted. Non-trivial = capture with >= 2 attackers on each side or an x-ray attacker; distinct by (position, move).";
+
+const SWAP_BUDGET: usize = 6_000;
 
 fn value(k: Kind) -> i32 {
     match k {
@@ -28,41 +30,45 @@ fn attackers_both(board: &[Option<Pc>; 64], target: u8) -> Vec<u8> {
 }
 
 /// Independent swap: returns the set of outcomes {net gain for the side to move at this point},
-/// branching over every least-valued attacker (ties between equally valued pieces).
-/// `board` has the piece `on_target` standing on `target`; `side` is to capture.
-fn swap_outcomes(board: &[Option<Pc>; 64], target: u8, side_white: bool, depth: u32) -> Vec<i32> {
-    // best achievable gain for `side`: either stop (0) or capture the piece on target and then
-    // lose whatever the opponent gains afterwards
+/// branching over every least-valued attacker (ties between equally valued pieces). Memoised on the
+/// board (long exchanges with many equal pieces would otherwise branch factorially).
+/// `board` has the piece to be captured standing on `target`; `side` is to capture.
+fn swap_outcomes(board: &[Option<Pc>; 64], target: u8, side_white: bool, depth: u32, memo: &mut std::collections::HashMap<(u64, bool), Vec<i32>>) -> Vec<i32> {
+    let key = (crate::framework::hash_of(board), side_white);
+    if let Some(v) = memo.get(&key) {
+        return v.clone();
+    }
     let victim = board[target as usize].unwrap();
     let mine: Vec<u8> = attackers_on(board, target, side_white);
-    if mine.is_empty() || depth > 40 {
+    if mine.is_empty() || depth > 60 {
         return vec![0];
+    }
+    if memo.len() > SWAP_BUDGET {
+        // too many distinct exchange states: give up on this capture (reported as ambiguous, which
+        // asserts nothing) rather than spend seconds on it
+        return vec![0, i32::MAX / 4];
     }
     let min_val = mine.iter().map(|s| value(board[*s as usize].unwrap().kind)).min().unwrap();
     let cands: Vec<u8> = mine.iter().copied().filter(|s| value(board[*s as usize].unwrap().kind) == min_val).collect();
     let mut out: Vec<i32> = vec![];
     for from in cands {
         let pc = board[from as usize].unwrap();
-        if pc.kind == Kind::K {
-            // the king may capture only if no enemy attacker is left afterwards
-            let mut b = *board;
-            b[from as usize] = None;
-            b[target as usize] = Some(pc);
-            if !attackers_on(&b, target, !side_white).is_empty() {
-                out.push(0);
-                continue;
-            }
-        }
         let mut b = *board;
         b[from as usize] = None;
         b[target as usize] = Some(pc);
-        for reply in swap_outcomes(&b, target, !side_white, depth + 1) {
+        if pc.kind == Kind::K && !attackers_on(&b, target, !side_white).is_empty() {
+            // the king may capture only if no enemy attacker is left afterwards
+            out.push(0);
+            continue;
+        }
+        for reply in swap_outcomes(&b, target, !side_white, depth + 1, memo) {
             // may also decline to capture at all
             out.push((value(victim.kind) - reply).max(0));
         }
     }
     out.sort_unstable();
     out.dedup();
+    memo.insert(key, out.clone());
     out
 }
 
@@ -82,7 +88,8 @@ fn reference_verdicts(p: &Pos, m: &Mv) -> Vec<bool> {
         None => mover,
     };
     b[m.to as usize] = Some(placed);
-    let mut v: Vec<bool> = swap_outcomes(&b, m.to, !us, 0).into_iter().map(|reply| gain - reply >= 0).collect();
+    let mut memo = std::collections::HashMap::new();
+    let mut v: Vec<bool> = swap_outcomes(&b, m.to, !us, 0, &mut memo).into_iter().map(|reply| gain - reply >= 0).collect();
     v.sort_unstable();
     v.dedup();
     v
@@ -152,6 +159,9 @@ pub fn check_position(p: &Pos, st: &mut Stats) -> Result<(), Fail> {
         if xray {
             st.class("xray");
         }
+        if attackers + defenders >= 17 {
+            st.class("17_or_more_men_bear_on_the_square");
+        }
         if m.promo.is_some() {
             st.class("capturing_promotion");
         }
@@ -199,6 +209,14 @@ pub fn run(run: &mut Run) -> &'static str {
             _ => Mix::Tactical,
         };
         for gp in c.positions(mix, 10, st) {
+            check_position(&gp.pos, st)?;
+        }
+        Ok(())
+    });
+    // very long exchanges (a part of its own: the branching reference is costly there)
+    let cases = run.tier.pick(1_600, 100_000);
+    run.proptest_part("long_exchanges", RULE, pos_case(4..60), cases, |c: &PosCase, st: &mut Stats| {
+        for gp in c.positions(Mix::LongExchange, 1, st) {
             check_position(&gp.pos, st)?;
         }
         Ok(())
